@@ -965,5 +965,15 @@ def r11_junit_text_xml_safe(chk: Check) -> None:
         chk.undecided("C16.R11", "<discovery>", f"sites={n}", "fewer junit text sinks than confirmed by hand")
 
 
+def r12_memo(chk: Check) -> None:
+    from . import shared
+
+    P = chk.project
+    mods = ('cli/commands/run/handlers/cassettes.py', 'cli/commands/run/handlers/junitxml.py', 'cli/commands/run/context.py', 'engine/recorder.py', 'core/transport.py', 'cli/commands/run/executor.py')
+    fns = [f for m in mods if m in P.by_relpath for f in P.module(m).functions.values() if not isinstance(f.node, ast.Lambda)]
+    shared.memo_key_rule(chk, "C16.R12", fns, {("_set_cache_entry", "data"): "a setter: the value to store is handed in by get(), which computed it for this key", ("_get_body_strategy", "operation"): "a parameter belongs to exactly one operation (stated next to the cache)"},
+                         "MEMO-KEY(anchor modules of this property): report entries are built per exchange: a cache keyed by less writes another exchange's data", floor=0)
+
+
 def rules(tier: str) -> list:  # type: ignore[type-arg]
-    return [r1_yaml_flow, r1c_line_protocol, r2_conditional_writer, r2b_failures_once, r3_structured_writers, r6_total_operations, r7_handlers, r8_header_fields, r9_writer_waited_for, r10_membership_is_data, r11_junit_text_xml_safe]
+    return [r1_yaml_flow, r1c_line_protocol, r2_conditional_writer, r2b_failures_once, r3_structured_writers, r6_total_operations, r7_handlers, r8_header_fields, r9_writer_waited_for, r10_membership_is_data, r11_junit_text_xml_safe, r12_memo]
